@@ -96,7 +96,27 @@ def main():
         for check, v in row["caught"].items():
             if v["rule"]:
                 print("    ", check, v["rule"])
-    if not sys.argv[1:]:
+    # results of earlier evaluations are kept in seeded/results.json, so that evaluating a few ids
+    # regenerates the whole table
+    store = os.path.join(SEEDED, "results.json")
+    try:
+        kept = json.load(open(store))
+    except (OSError, ValueError):
+        kept = {}
+    for row in rows:
+        kept[row["id"]] = row
+    for ident, _, _ in obsolete:
+        kept.pop(ident, None)
+    with open(store, "w") as out:
+        json.dump(kept, out, indent=1, sort_keys=True)
+    known_obsolete = []
+    for ident in sorted(d for d in os.listdir(SEEDED) if os.path.isdir(os.path.join(SEEDED, d))):
+        meta = json.load(open(os.path.join(SEEDED, ident, "meta.json")))
+        if meta.get("obsolete"):
+            known_obsolete.append((ident, meta["property"], meta["obsolete"]))
+    obsolete = known_obsolete
+    rows = [kept[key] for key in sorted(kept)]
+    if True:
         with open(os.path.join(SEEDED, "README.md"), "w") as out:
             out.write("# Seeded breakages (written by sub-agents from the property text only)\n\n"
                       "Regenerated by `tools/seeded.py` (tier: %s). Each patch passes the pinned "
